@@ -4,6 +4,7 @@ import (
 	"fmt"
 	"go/token"
 	"go/types"
+	"regexp"
 	"sort"
 	"strings"
 
@@ -16,21 +17,16 @@ func init() { register("C20", "other", runC20) }
 // for a stated reason, provided the listed guards are established at the site.
 type allowSite struct {
 	fn       string
-	contains string
+	contains string // regular expression over the printed site
 	reason   string
-	requires []string // atom keys (in the function's unabbreviated terms) that must be established (true side) at the site
+	requires []string // each entry: alternatives separated by "|" ("!" prefix = established on the false side); one must hold at the site
 }
 
 var c20Allow = []allowSite{
-	{"keeper.VerifyAttestationSignatures", "p1[(phi((@ + 1)|0) * 65):((phi((@ + 1)|0) * 65) + 65)]",
-		"needs len(attestation) == 65*t and i < t without uint32 wrap-around; both tests are established here, and t <= number of attesters (C13), so 65*t cannot wrap below ~66 million attesters",
-		[]string{"((p3 * 65) == uint32(len(p1)))", "(phi((@ + 1)|0) < p3)"}},
-	{"keeper.VerifyAttestationSignatures", "ethcrypto.Ecrecover(ethcrypto.Keccak256(p0),p1[(phi((@ + 1)|0) * 65):((phi((@ + 1)|0) * 65) + 65)])#0[1:33]",
-		"go-ethereum crypto.Ecrecover returns a 65-byte uncompressed public key whenever its error is nil (secp256k1.RecoverPubkey contract)",
-		[]string{"(ethcrypto.Ecrecover(ethcrypto.Keccak256(p0),p1[(phi((@ + 1)|0) * 65):((phi((@ + 1)|0) * 65) + 65)])#1 == nil)"}},
-	{"keeper.VerifyAttestationSignatures", "ethcrypto.Ecrecover(ethcrypto.Keccak256(p0),p1[(phi((@ + 1)|0) * 65):((phi((@ + 1)|0) * 65) + 65)])#0[33:]",
-		"go-ethereum crypto.Ecrecover returns a 65-byte uncompressed public key whenever its error is nil (secp256k1.RecoverPubkey contract)",
-		[]string{"(ethcrypto.Ecrecover(ethcrypto.Keccak256(p0),p1[(phi((@ + 1)|0) * 65):((phi((@ + 1)|0) * 65) + 65)])#1 == nil)"}},
+	// attestation[i*65+a : i*65+b] with 0 <= a <= b <= 65, i a counter from a non-negative start
+	{"keeper.VerifyAttestationSignatures", `^p1\[(\(phi\(\(@ \+ 1\)\|\d+\) \* 65\)|\(\(phi\(\(@ \+ 1\)\|\d+\) \* 65\) \+ ([0-9]|[1-5][0-9]|6[0-5])\)):\(\(phi\(\(@ \+ 1\)\|\d+\) \* 65\) \+ ([0-9]|[1-5][0-9]|6[0-5])\)\]$`,
+		"needs len(attestation) >= 65*t and i < t without uint32 wrap-around; both tests are established here, and t <= number of attesters (C13), so 65*t cannot wrap below ~66 million attesters",
+		[]string{"((p3 * 65) == uint32(len(p1)))|!(uint32(len(p1)) < (p3 * 65))", "(phi((@ + 1)|0) < p3)|(phi((@ + 1)|1) < p3)"}},
 }
 
 // math.Int methods that are safe on the zero value (nil inner *big.Int), checked in cosmossdk.io/math v1.3.0
@@ -40,6 +36,26 @@ var intNilSafe = map[string]bool{"IsNil": true, "BigInt": true, "Marshal": true,
 var intMarshalOnly = map[string]string{
 	"types.PerMessageBurnLimit":    "stored with cdc.MustMarshal (Int.Marshal is nil-safe)",
 	"types.SetBurnLimitPerMessage": "emitted as a typed event (Int.MarshalJSON is nil-safe)",
+}
+
+// splitAlts splits "a|b" alternatives at top level (atoms contain "|" inside phi(...)).
+func splitAlts(s string) []string {
+	var out []string
+	depth, start := 0, 0
+	for i := 0; i < len(s); i++ {
+		switch s[i] {
+		case '(', '[', '{':
+			depth++
+		case ')', ']', '}':
+			depth--
+		case '|':
+			if depth == 0 {
+				out = append(out, s[start:i])
+				start = i + 1
+			}
+		}
+	}
+	return append(out, s[start:])
 }
 
 func established(c *FC, key string, wantTrue bool, at ssa.Instruction) bool {
@@ -299,10 +315,20 @@ func recordSite(p *Prog, r *Report, c *FC, s panicSite, key, pos string, ok bool
 		return
 	}
 	for _, a := range c20Allow {
-		if a.fn == funcName(s.Fn) && s.Desc == a.contains {
+		if a.fn == funcName(s.Fn) && regexp.MustCompile(a.contains).MatchString(s.Desc) {
 			missing := ""
 			for _, req := range a.requires {
-				if !established(c, req, true, s.In) {
+				okAny := false
+				for _, alt := range splitAlts(req) {
+					want := true
+					if strings.HasPrefix(alt, "!") {
+						want, alt = false, alt[1:]
+					}
+					if established(c, alt, want, s.In) {
+						okAny = true
+					}
+				}
+				if !okAny {
 					missing = req
 				}
 			}
@@ -510,7 +536,8 @@ func checkCtors(p *Prog, r *Report, reach map[*ssa.Function]bool, fc func(*ssa.F
 					d := c.x.Of(args[0], call).String()
 					a := c.x.Of(args[1], call).String()
 					okD := established(c, "(nil == sdk.ValidateDenom("+d+"))", true, call) || established(c, "(sdk.ValidateDenom("+d+") == nil)", true, call)
-					okA := established(c, "(0 <I "+a+")", true, call)
+					okA := established(c, "(0 <I "+a+")", true, call) || established(c, "("+a+" <I 0)", false, call) ||
+						regexp.MustCompile(`^sdkmath\.NewInt\(\d+\)$`).MatchString(a)
 					r.check(okD, "P-ctor", key("sdk.NewCoin/denom"), pos, "behind ValidateDenom("+d+") == nil", "sdk.NewCoin panics on an invalid denom; "+d+" is not validated on every path to this call")
 					r.check(okA, "P-ctor", key("sdk.NewCoin/amount"), pos, "behind amount > 0", "sdk.NewCoin panics on a negative amount; "+a+" is not proven positive here")
 				case name == "sdk.NewCoins":
